@@ -327,7 +327,7 @@ func TestC03Replay(t *testing.T) {
 const c07Rule = "generated rule sets including Pop/Return reachable in the initial state, optional groups in pushing rules, " +
 	"back-references to missing groups x hostile inputs (unbalanced closers, closers first, deep push chains, empty, invalid UTF-8) x k " +
 	"extra Next calls after EOF / after an error; oracle: no panic, every Next returns token xor error, non-EOF tokens non-empty, " +
-	"token count <= len(input), EOF is sticky at one position; non-trivial = stack depth changed >=2 times, or a Pop/Return happened " +
+	"token count <= len(input), EOF is sticky at one position also while other lexers of the definition are opened and advanced between the calls; non-trivial = stack depth changed >=2 times, or a Pop/Return happened " +
 	"with nothing to return to, or >=3 calls after EOF/error; distinct by SHA-256 of (rules, input, extra calls)"
 
 func checkC07(c *lexCase, def lexer.Definition, r *vstat.Run) outcome {
@@ -526,8 +526,8 @@ func TestC07Replay(t *testing.T) {
 // C16: lexer definitions survive JSON serialisation
 
 const c16Rule = "generated rule sets (all action kinds, nested includes, patterns with quotes, backslashes, <>&, non-ASCII) x inputs; " +
-	"oracle (round trip + differential): New(Unmarshal(Marshal(definition))) and New(Unmarshal(Marshal(rules))) have equal Symbols() " +
-	"and produce the same token stream / error as the original definition; non-trivial = the definition has an include and a push/pop " +
+	"oracle (round trip + differential): New(Unmarshal(Marshal(definition))) and New(Unmarshal(Marshal(rules))), each built twice from the same unmarshalled value " +
+	"and lexed with before anything asks for their symbols, produce the same token stream / error as the original definition and then have equal Symbols(); non-trivial = the definition has an include and a push/pop " +
 	"and the input reaches a second state; distinct by SHA-256 of (rules, input)"
 
 func roundTrip(v any) (first, again *lexer.StatefulDefinition, msg string) {
